@@ -254,6 +254,82 @@ def server_case(ctx, rng, idx, mem, deadline):
         pair.close()
 
 
+def porter_case(ctx, rng, idx):
+    """the sibling server class: a Porter (its stewards echo every request as JSON) with two well-behaved patrons and one
+    raw connection that delivers a damaged request: the service loop never raises and the bystanders get their answers"""
+    from ioflo.base import storing
+    from ioflo.aio.http import serving, clienting
+    valid, data, op = gen_bad_request(rng)
+    npieces = rng.choice([1, 1, 2, 3])
+    cuts = tuple(sorted(rng.sample(range(1, len(data)), min(npieces - 1, len(data) - 1)))) if len(data) > 1 else ()
+    pieces = hg.cut(data, cuts)
+    store = storing.Store(stamp=0.0)
+    net_ = hg.MemNet(rng)
+    porter = serving.Porter(servant=hg.mem_server(net_, store, 30.0), store=store)
+    goods = []
+    for gi in range(2):
+        conn = hg.mem_client(net_, store)
+        goods.append(clienting.Patron(connector=conn, store=store, hostname="127.0.0.1", port=net_.addr[1]))
+    raw = net_.connect()
+    rawpipes = net_.conns[-1]
+    for gi, g in enumerate(goods):
+        g.request(method="GET", path="/p%d/0" % gi)
+    wit = lambda extra=None: jsonable(dict({"delivered": data if len(data) < 2000 else data[:200], "pieces": [len(x) for x in pieces],
+                                            "mutation": op, "valid_original": valid}, **(extra or {})))
+    escaped = []
+    queue = list(pieces)
+    second = False
+    for rounds in range(80):
+        if queue and rounds % 2 == 1:
+            raw.send(queue.pop(0))
+        for g in goods:
+            try:
+                g.serviceAll()
+            except Exception as ex:
+                escaped.append(("patron", exc_key(ex), "%s: %s" % (type(ex).__name__, str(ex)[:100])))
+        net_.deliver()
+        try:
+            porter.serviceAll()
+        except Exception as ex:
+            if len(escaped) < 5:
+                escaped.append(("porter", exc_key(ex), "%s: %s" % (type(ex).__name__, str(ex)[:100])))
+        net_.deliver()
+        store.advanceStamp(0.01)
+        if not second and not queue and rounds > 6 and all(len(g.responses) >= 1 for g in goods):
+            for gi, g in enumerate(goods):
+                g.request(method="GET", path="/p%d/1" % gi)
+            second = True
+        if second and all(len(g.responses) >= 2 for g in goods) and rounds > 12:
+            break
+    ctx.event(rounds)
+    ctx.hit("porter_cases")
+    first = escaped[0] if escaped else None
+    ctx.check(not escaped, "porter/exception/%s" % (first[1] if first else ""),
+              "%s escapes %s.serviceAll after malformed bytes on one connection of a Porter (mutation %s)" % (
+                  first[2] if first else "", first[0] if first else "", op), lambda: wit({"escaped": escaped}))
+    got = [[(r["status"], (r.get("data") or {}).get("path") if isinstance(r.get("data"), dict) else None) for r in g.responses]
+           for g in goods]
+    import json as _json
+
+    def paths(g):
+        out = []
+        for r in g.responses:
+            try:
+                out.append((r["status"], _json.loads(bytes(r["body"]).decode("utf-8")).get("path")))
+            except Exception:      # noqa
+                out.append((r["status"], None))
+        return out
+    got = [paths(g) for g in goods]
+    want = [[(200, "/p%d/0" % gi), (200, "/p%d/1" % gi)] for gi in range(2)]
+    ctx.check(got == want, "porter/other-connection-disturbed" + ("/after-escaped-exception" if escaped else ""),
+              "a well-behaved connection of a Porter did not receive its own two answers while another connection delivered "
+              "malformed bytes (mutation %s)" % op, lambda: wit({"bystanders": got, "escaped": escaped}))
+    ctx.case(("porter", data, cuts), nontrivial=(data != valid))
+    for g in goods:
+        g.connector.close()
+    raw.close()
+
+
 CERTAINLY_BAD = [b"BAD\r\n\r\n", b"GET\r\n\r\n", b"GET / HTTP/1.1 extra words\r\n\r\n", b"\x00\x01\x02 / HTTP/1.1\r\n\r\n",
                  b"GET / HTTP/9.9\r\n\r\n", b"GET / HTTP/1.1\r\nno colon here\r\n\r\n"]
 
@@ -496,6 +572,8 @@ def worker(ctx, job):
             client_case(ctx, rng, i, deadline)
             if i % 5 == 0:
                 pipelined_garbage_case(ctx, ctx.subrng("c32pg", job.get("index", 0), i), i)
+            if i % 4 == 1:
+                porter_case(ctx, ctx.subrng("c32porter", job.get("index", 0), i), i)
         except (OSError, RuntimeError) as ex:      # the harness's own real sockets, never a verdict
             errs.append("%s: %s" % (type(ex).__name__, ex))
     hg.tolerate_socket_errors(ctx, errs, job["n"])
